@@ -101,3 +101,8 @@ CLAIMED["C14"] = {
     "note": "At most 5 steps (events plus watermark advances): below the 4+4 events of the property's quantifier; the fully symbolic K = 4 run did not finish in 25 min, hence the case split. Key extractors / join condition are harness callbacks; ids unique per arrival; outer joins, count/session windows and join_manager routing outside. Trusted: rsym + library model (injective coding of format!(\"{}_{}\", id, ts)), z3, reference.",
 }
 NA.pop("C14", None)
+CLAIMED["C19"] = {
+    "text": "Thread-count / chunking clause only: the REAL ParallelRuleEngine::execute_parallel (group_rules_by_salience, should_parallelize, execute_rules_parallel incl. chunk arithmetic, worker closures and the shared result vector, execute_rules_sequential, evaluate_rule_conditions, evaluate_single_condition) is executed symbolically for N rules with symbolic conditions (flag == true, And, Or, Not), symbolic salience with ties, symbolic enabled flags, symbolic facts and a symbolic ParallelConfig (enabled, max_threads 1..16, min_rules_per_thread 1..4): it must return Ok, report every enabled rule exactly once, and the set of fired rules and both counts must equal evaluating the enabled rules one by one on the same facts.",
+    "note": "ONE thread schedule: std::thread::spawn runs the worker to completion at spawn time; Arc/Mutex/RwLock transparent. The 'every thread schedule' part of C19 is NOT decided (no interleaving model in this family here); native replays of counterexamples run the real threads 20 times. N = 3 (quick) / 4 (thorough) rules, far below 24. Custom functions, exists/forall/accumulate/multifield conditions outside; calculate_speedup stubbed. Trusted: rsym + library model, z3, reference.",
+}
+NA.pop("C19", None)
